@@ -51,7 +51,12 @@ RULE = ('E2 explicit-state exploration of library state: events (65: '
         'single histories of 70 000 (thorough 1.1 million) calls with '
         'ever-changing arguments, every result compared with the reference; a witness harness with a toggle '
         'shows the interleavings are real. A state is a history or a schedule; non-trivial = history of '
-        'length >= 2 / schedule with >= 1 preemption.')
+        'length >= 2 / schedule with >= 1 preemption.'
+        ' '
+        'Also: the consumer idiom - keep frame.properties / .headers '
+        '/ .arguments, drop the frame, decode on - as an event with '
+        'its own invariant (nothing kept changes, nothing is handed '
+        'out twice).')
 BOUNDS = {'quick': {'history_depth': '2 + all a;b;a + depth 3 over 16 core events', 'threads': 2, 'preemptions': '2 (1 for the header and 3-thread harnesses)'},
           'thorough': {'history_depth': 3, 'threads': '2 and 3',
                        'preemptions': '3 (2 for the header and 3-thread '
